@@ -100,6 +100,7 @@ impl Engine for LiveEngine {
             sweeper: None,
             create_empty_file: false,
             allow_ambiguous: false,
+            ring: gen_ring(seed),
         };
         let mut clients = Vec::new();
         for ci in 0..n_clients {
